@@ -314,6 +314,8 @@ func checkC16(c *Ctx) {
 		}
 	}
 
+	c.ruleNoSharedStateInAuth("C16-R7")
+
 	// R1: setup gating
 	c.checkSetupGating()
 }
